@@ -92,6 +92,8 @@ impl<'ast> Visit<'ast> for RetFinder {
 
 struct AssignFinder {
     names: Vec<String>,
+    /// every single-segment path mentioned (closures included): a mention of the random source is a use of it
+    mentions: Vec<String>,
 }
 impl AssignFinder {
     fn base(e: &Expr) -> Option<String> {
@@ -139,20 +141,35 @@ impl<'ast> Visit<'ast> for AssignFinder {
                 }
                 visit::visit_expr(self, e);
             }
-            Expr::Closure(_) => {}
+            Expr::Closure(c) => {
+                let mut ids = BTreeSet::new();
+                crate::loops::idents_in(c.to_token_stream(), &mut ids);
+                self.mentions.extend(ids);
+            }
+            Expr::Path(p) if p.path.segments.len() == 1 => {
+                self.mentions.push(p.path.segments[0].ident.to_string());
+            }
             _ => visit::visit_expr(self, e),
         }
     }
 }
 
 fn assigned_outer(cx: &Ctx, toks: &dyn Fn(&mut AssignFinder)) -> Vec<String> {
-    let mut f = AssignFinder { names: vec![] };
+    let mut f = AssignFinder { names: vec![], mentions: vec![] };
     toks(&mut f);
     let mut seen = BTreeSet::new();
     let mut out = vec![];
     for n in f.names {
         if cx.lookup(&n).is_some() && seen.insert(n.clone()) {
             out.push(n);
+        }
+    }
+    // the random source is advanced by every use (`rng.gen()`, `f(rng, …)`, a closure that captures it)
+    if cx.rng_mode {
+        for n in f.mentions {
+            if matches!(cx.lookup(&n), Some((_, Ty::Rng))) && seen.insert(n.clone()) {
+                out.push(n);
+            }
         }
     }
     out
@@ -172,7 +189,21 @@ fn tuple_of(cx: &Ctx, vars: &[String]) -> (String, Ty) {
     )
 }
 
+/// does the token stream mention a local that holds the random source?
+pub fn mentions_rng(cx: &Ctx, ts: proc_macro2::TokenStream) -> bool {
+    if !cx.rng_mode {
+        return false;
+    }
+    let mut ids = BTreeSet::new();
+    crate::loops::idents_in(ts, &mut ids);
+    ids.iter().any(|n| matches!(cx.lookup(n), Some((_, Ty::Rng))))
+}
+
 pub fn tr_block_value(cx: &mut Ctx, b: &Block, expected: Option<&Ty>) -> R<Tr> {
+    if mentions_rng(cx, b.to_token_stream()) {
+        // the advanced source would be lost when the block's value is taken
+        return Err("use of the random source inside a value block".into());
+    }
     cx.push();
     cx.value_depth += 1;
     let saved_prelude = std::mem::take(&mut cx.prelude);
@@ -215,6 +246,59 @@ fn finish(cx: &mut Ctx, k: &Cont) -> R<Tr> {
     }
 }
 
+/// syntactic type of an expression (enough for `let mut x; … x = <float expression>;`)
+fn quick_type(cx: &Ctx, e: &Expr) -> Option<Ty> {
+    match strip(e) {
+        Expr::Lit(ExprLit { lit: Lit::Float(_), .. }) => Some(Ty::F64),
+        Expr::Lit(ExprLit { lit: Lit::Bool(_), .. }) => Some(Ty::Bool),
+        Expr::Path(p) if p.path.segments.len() == 1 => cx.lookup(&p.path.segments[0].ident.to_string()).map(|x| x.1),
+        Expr::Unary(u) => quick_type(cx, &u.expr),
+        Expr::Binary(b) => quick_type(cx, &b.left).or_else(|| quick_type(cx, &b.right)),
+        Expr::Cast(c) => Some(conv_type(&c.ty, &cx.tybind)),
+        Expr::Call(c) => match strip(&c.func) {
+            Expr::Path(p) => match cx.resolve(&path_segs(&p.path)) {
+                Resolved::Fn(k) => cx.idx.fns.get(&k).map(|f| f.ret.clone()),
+                _ => None,
+            },
+            _ => None,
+        },
+        Expr::MethodCall(m) => match quick_type(cx, &m.receiver) {
+            Some(Ty::F64) if !matches!(m.method.to_string().as_str(), "is_nan" | "is_infinite" | "is_finite") => Some(Ty::F64),
+            _ => None,
+        },
+        _ => None,
+    }
+}
+
+fn first_assign_type(cx: &Ctx, name: &str, stmts: &[Stmt]) -> Option<Ty> {
+    struct F<'c, 'a> {
+        cx: &'c Ctx<'a>,
+        name: String,
+        found: Option<Ty>,
+    }
+    impl<'ast, 'c, 'a> Visit<'ast> for F<'c, 'a> {
+        fn visit_expr(&mut self, e: &'ast Expr) {
+            if self.found.is_some() {
+                return;
+            }
+            if let Expr::Assign(a) = e {
+                if let Expr::Path(p) = strip(&a.left) {
+                    if p.path.is_ident(&self.name) {
+                        self.found = quick_type(self.cx, &a.right);
+                        return;
+                    }
+                }
+            }
+            visit::visit_expr(self, e);
+        }
+    }
+    let mut f = F { cx, name: name.to_string(), found: None };
+    for s in stmts {
+        f.visit_stmt(s);
+    }
+    f.found
+}
+
 fn is_panic_macro(mac: &Macro) -> bool {
     let n = mac.path.segments.last().unwrap().ident.to_string();
     matches!(n.as_str(), "panic" | "unreachable" | "todo" | "unimplemented")
@@ -245,7 +329,61 @@ pub fn tr_stmts(cx: &mut Ctx, stmts: &[Stmt], k: &Cont) -> R<Tr> {
             let r = tr_stmts(cx, rest, k)?;
             Ok(Tr { s: format!("let {} := {}\n{}", ln, v.val(), r.s), ty: r.ty, prop: r.prop })
         }
+        Stmt::Item(Item::Fn(f)) if cx.rng_mode => {
+            // nested `fn` (cannot capture locals): lifted to `<outer>.<name>`
+            let name = f.sig.ident.to_string();
+            let mut fi = mk_fn(&cx.module, "", None, None, vec![], &f.sig, &f.block, false, &Default::default(), false, false);
+            if fi.generic {
+                return Err(format!("nested generic fn {}", name));
+            }
+            let outer = cx.idx.fns.values().find(|x| x.lean_name == cx.fn_lean_name).ok_or("nested fn: unknown outer function")?;
+            fi.key = format!("{}::{}", outer.key, name);
+            fi.lean_name = format!("{}.{}", cx.fn_lean_name, name);
+            fi.file = outer.file.clone();
+            let fix_idx_types = |t: &mut Ty| {
+                if let Ty::Unknown(n) = t {
+                    let base = n.split('<').next().unwrap().trim().rsplit("::").next().unwrap().trim().to_string();
+                    if cx.idx.structs.contains_key(&base) {
+                        *t = Ty::Struct(base);
+                    } else if cx.idx.enums.contains_key(&base) {
+                        *t = Ty::Enum(base);
+                    } else if let Some(a) = cx.idx.aliases.get(&base) {
+                        *t = a.clone();
+                    }
+                }
+            };
+            for (_, t) in fi.params.iter_mut() {
+                fix_idx_types(t);
+            }
+            fix_idx_types(&mut fi.ret);
+            let t = crate::translate_fn(cx.idx, &fi)?;
+            cx.aux_defs.push(t.text.trim_end().to_string() + "\n");
+            for d in t.deps {
+                cx.deps.insert(d);
+            }
+            for d in t.const_deps {
+                cx.const_deps.insert(d);
+            }
+            for d in t.sf_calls {
+                cx.sf_calls.insert(d);
+            }
+            cx.uses_rngfloat |= t.uses_rngfloat;
+            cx.local_fns.insert(name, fi);
+            tr_stmts(cx, rest, k)
+        }
         Stmt::Item(_) => Err("nested item".into()),
+        Stmt::Local(l) if l.init.is_none() && cx.rng_mode => {
+            // `let mut x;` (assigned before use): any initial value will do; the type comes from the first assignment
+            let name = match &l.pat {
+                Pat::Ident(i) => i.ident.to_string(),
+                _ => return Err("let without initialiser (pattern)".into()),
+            };
+            let ty = first_assign_type(cx, &name, rest).ok_or("let without initialiser: type of the first assignment unknown")?;
+            let lt = cx.lean_ty(&ty)?;
+            let pat = bind_let_pat(cx, &l.pat, &ty)?;
+            let r = tr_stmts(cx, rest, k)?;
+            Ok(Tr { s: format!("let {} : {} := panicV\n{}", pat, lt, r.s), ty: r.ty, prop: r.prop })
+        }
         Stmt::Local(l) => {
             let init = l.init.as_ref().ok_or("let without initialiser")?;
             if init.diverge.is_some() {
@@ -667,7 +805,8 @@ fn stmt_expr(cx: &mut Ctx, e: &Expr, rest: &[Stmt], k: &Cont) -> R<Tr> {
                 }
                 None => "()".into(),
             };
-            Ok(Tr::new(emit_return(cx, v), Ty::Never))
+            let pre = cx.take_prelude();
+            Ok(Tr::new(format!("{}{}", pre, emit_return(cx, v)), Ty::Never))
         }
         Expr::Break(b) => {
             if b.label.is_some() || b.expr.is_some() {
@@ -687,8 +826,9 @@ fn stmt_expr(cx: &mut Ctx, e: &Expr, rest: &[Stmt], k: &Cont) -> R<Tr> {
         Expr::Assign(a) => {
             let right = (*a.right).clone();
             let (ln, v) = assign(cx, &a.left, |cx, cur| Ok(tr_expr(cx, &right, Some(&cur.ty))?.val()))?;
+            let pre = cx.take_prelude();
             let r = tr_stmts(cx, rest, k)?;
-            Ok(Tr { s: format!("let {} := {}\n{}", ln, v, r.s), ty: r.ty, prop: r.prop })
+            Ok(Tr { s: format!("{}let {} := {}\n{}", pre, ln, v, r.s), ty: r.ty, prop: r.prop })
         }
         Expr::Binary(b)
             if matches!(b.op, BinOp::AddAssign(_) | BinOp::SubAssign(_) | BinOp::MulAssign(_) | BinOp::DivAssign(_) | BinOp::RemAssign(_)) =>
@@ -730,8 +870,9 @@ fn stmt_expr(cx: &mut Ctx, e: &Expr, rest: &[Stmt], k: &Cont) -> R<Tr> {
                     _ => unreachable!(),
                 })
             })?;
+            let pre = cx.take_prelude();
             let r = tr_stmts(cx, rest, k)?;
-            Ok(Tr { s: format!("let {} := {}\n{}", ln, v, r.s), ty: r.ty, prop: r.prop })
+            Ok(Tr { s: format!("{}let {} := {}\n{}", pre, ln, v, r.s), ty: r.ty, prop: r.prop })
         }
         Expr::If(i) => stmt_if(cx, i, rest, k),
         Expr::Block(b) => {
